@@ -280,6 +280,37 @@ fn scenario(seed: u64, len: usize, growth_only: bool) -> Scenario {
     Scenario { branches, steps, desc }
 }
 
+/// C08: the chain grows by `g` blocks with activity (branch 1), the client filters the new blocks
+/// but has not downloaded all matched ones (a record that starts above the old tip is pending), then
+/// the growth is reorganised away (branch 2 parts from branch 1 at the old tip).  The fork handling
+/// deletes that record and rolls back: the crash enumeration reaches the write boundary in between.
+fn scenario_growth_then_fork(seed: u64) -> Scenario {
+    let mut rng = Rng::new(seed ^ 0x9f0);
+    let mut a = Branch::new();
+    let n0 = rng.range(25, 40);
+    a.extend(&mut rng, n0, 1);
+    let t0 = a.chain.tip_number();
+    let g = rng.range(2, 5);
+    let mut b = a.fork_of(t0, 2);
+    // activity in every block of the growth: outputs to the scripts
+    b.extend(&mut rng, g, 2);
+    let mut c = b.fork_of(t0, 3);
+    let extra = rng.range(1, 3);
+    c.extend(&mut rng, g + extra, 3);
+    let desc = format!("growth-then-fork: A tip {}; branch 1 = A + {} blocks; branch 2 parts from branch 1 at {} tip {}", t0, g, t0, c.chain.tip_number());
+    let mut steps: Vec<Step> = (0..8).map(|_| Step::Run(7)).collect();
+    steps.push(Step::Switch(1));
+    // a few short rounds: the proof, the filter hashes, the filters of the growth - not the blocks
+    for _ in 0..rng.range(2, 5) {
+        steps.push(Step::Run(rng.range(1, 2) as u32));
+    }
+    steps.push(Step::Switch(2));
+    for _ in 0..4 {
+        steps.push(Step::Run(7));
+    }
+    Scenario { branches: vec![a, b, c], steps, desc }
+}
+
 pub(crate) fn parse_seeds(text: &str) -> Vec<(u64, usize)> {
     text.lines()
         .filter_map(|l| {
@@ -364,6 +395,12 @@ pub fn run_mode(opts: &Options, prop: &str) -> Report {
         for _ in 0..n {
             seeds.push((rng.next(), rng.range(6, 24) as usize));
         }
+        if prop == "C08" {
+            // growth, then a reorganisation of exactly the growth (marked by the length 9999)
+            for _ in 0..(if opts.thorough() { 60 } else { 8 }) {
+                seeds.push((rng.next(), 9999));
+            }
+        }
         if prop == "C04" {
             for _ in 0..n / 2 {
                 let s = (rng.next(), rng.range(6, 24) as usize);
@@ -380,7 +417,7 @@ pub fn run_mode(opts: &Options, prop: &str) -> Report {
     let mut owner: Vec<usize> = Vec::new();
     for (hi, (seed, len)) in seeds.iter().enumerate() {
         super::seed_client_randomness(*seed);
-        let sc = scenario(*seed, *len, prop == "C03");
+        let sc = if *len == 9999 { scenario_growth_then_fork(*seed) } else { scenario(*seed, *len, prop == "C03") };
         let branches = &sc.branches;
         let replay = |extra: String| vec![format!("history-seed {} len {}", seed, len), format!("# {}{}; steps {:?}", if prop == "C09" { "fork-history with set_scripts commands; " } else if cmd_seeds.contains(seed) { "with set_scripts commands; " } else { "" }, sc.desc, sc.steps), extra];
         if hi % 17 == 0 {
@@ -753,8 +790,15 @@ pub fn run_mode(opts: &Options, prop: &str) -> Report {
                     rep.count_class("crash:injected");
                     aborted = None;
                     let k = crash_at.unwrap_or(0) as usize;
-                    let last_done_is_record_deletion = k >= 2 && sites.borrow().get(k - 2) == Some(&"delete_matched_blocks");
-                    if prop == "C08" && in_lc_delivery.get() && last_done_is_record_deletion {
+                    // the crash hit the delivery of a proof and the stored tip is still on the
+                    // branch the client came from: the fork handling (one batch since the repair;
+                    // record deletions and a rollback batch before it) was interrupted or done,
+                    // the tip update was not
+                    let tip_on_old = serving > 0 && {
+                        let tip = node.i().storage.get_tip_header().calc_header_hash();
+                        branches[serving].chain.number_of_hash(&tip).is_none() && branches[serving - 1].chain.number_of_hash(&tip).is_some()
+                    };
+                    if prop == "C08" && in_lc_delivery.get() && tip_on_old {
                         rep.count_class("crash:inside-fork-handling");
                         if k % 2 == 0 && serving > 0 {
                             let old = &branches[serving - 1];
